@@ -1419,5 +1419,8 @@ DFGRPshutdown(void)
     free(Grlastfile);
     Grlastfile = NULL;
 
+    /* Allow the interface to be initialized again */
+    library_terminate = FALSE;
+
     return SUCCEED;
 } /* end DFGRPshutdown() */
